@@ -10,7 +10,8 @@ package c11
 //	                               it was called), parked with ProposalProcessors.l held, returns
 //
 // After every command the controller waits until the process is quiet: every goroutine that has a
-// frame of mitum or of this package on its stack is blocked (on the mutex, at a gate, on a channel).
+// frame of mitum or of this package on its stack waits for a mutex or is parked at a known place (a gate,
+// the caller of Process waiting for its processor).
 // The goroutine states come from runtime.Stack; a call that queues behind the held mutex is seen
 // as "sync.Mutex.Lock", so calls line up behind a running processor in the order of the schedule
 // (sync.Mutex wakes waiters first-in first-out). No quiet state within the time-out => the schedule
@@ -39,13 +40,20 @@ type schedule struct {
 
 var (
 	goHeader = regexp.MustCompile(`^goroutine (\d+) \[([^\],]+)`)
-	blocked  = map[string]bool{
-		"chan receive": true, "chan send": true, "select": true, "select (no cases)": true,
-		"sync.Mutex.Lock": true, "sync.RWMutex.Lock": true, "sync.RWMutex.RLock": true,
-		"sync.Cond.Wait": true, "sync.WaitGroup.Wait": true,
+	// a goroutine in one of these states waits for the mutex (or a reader/writer lock) of the code under test
+	lockWait = map[string]bool{
+		"sync.Mutex.Lock": true, "sync.RWMutex.Lock": true, "sync.RWMutex.RLock": true, "sync.Cond.Wait": true,
 		// not "semacquire": with go >= 1.20 that is a wait inside the runtime (a goroutine that allocates
 		// while a GC cycle starts), it ends without any goroutine of ours
-		"chan receive (nil chan)": true, "chan send (nil chan)": true,
+	}
+	// a goroutine in one of these states is parked only if it waits at one of the places below; anywhere else
+	// the wait may end by itself (util.Retry waits for a timer in a select)
+	chanWait = map[string]bool{"chan receive": true, "select": true}
+	parked   = [][]byte{
+		[]byte("internal/c11.(*writer).Manifest("),                // processor gate
+		[]byte("internal/c11.(*writer).Save("),                    // block-write gate
+		[]byte("isaac.(*ProposalProcessors).Process.func"),        // caller waits for the running processor
+		[]byte("isaac.(*DefaultProposalProcessor).deferctx.func"), // context watcher of Process / Save
 	}
 )
 
@@ -93,8 +101,21 @@ func quiet(self string) (bool, string) {
 			continue
 		}
 
-		if !blocked[string(m[2])] {
-			busy = append(busy, string(m[1])+":"+string(m[2]))
+		state := string(m[2])
+		still := lockWait[state]
+
+		if chanWait[state] {
+			for _, p := range parked {
+				if bytes.Contains(g, p) {
+					still = true
+
+					break
+				}
+			}
+		}
+
+		if !still {
+			busy = append(busy, string(m[1])+":"+state)
 		}
 	}
 
